@@ -67,6 +67,9 @@ def jobs(tier):
             J.append(job('C02', 'cg', 7, 3, obj=o, cg_mask=11, order='desc', groups=g, checks=ck))
     for g in ([1, 2, 4], [2, 2, 3], [3, 3, 1]):
         J.append(job('C02', 'cg', 7, 3, obj='max', cg_mask=15, order='desc', groups=g, checks=ck))
+    for g in ([1, 2, 3], [2, 2, 2], [1, 1, 4]):       # all four switches on (heuristic 3 and the seen-states set are off by default)
+        for o in ('diff', 'min'):
+            J.append(job('C02', 'cg', 6, 3, obj=o, cg_mask=15, order='desc', groups=g, checks=ck))
     for g in ([1, 2, 3], [3, 2, 1], [2, 2, 2], [1, 1, 4], [4, 1, 1], [2, 1, 3]):
         for alg in EXACT_DIFF:
             J.append(job('C02', alg, 6, 3, obj='diff', order='desc', groups=g, checks=ck))
